@@ -37,7 +37,7 @@ import (
 	"verifharness/internal/sim"
 )
 
-var scenarios = []string{"none", "unselected", "selected", "pending", "pending-restart", "importing", "removing1", "removing2", "removed", "starting", "lagging-reorg", "race-remove", "hints", "events"}
+var scenarios = []string{"none", "unselected", "selected", "pending", "pending-restart", "importing", "removing1", "removing2", "removed", "starting", "lagging-reorg", "stopped", "race-remove", "hints", "events"}
 
 // API methods raced against the completion of the background removal of the selected wallet
 var raceTargets = []string{"GetWalletBalance", "GetAddressBalance", "GetUtxo", "SignRawTransaction", "CreateRawTransaction", "GetTransactionFee", "AutoCreateTransaction", "TxHistory", "GetAddresses", "CreateAddress"}
@@ -175,6 +175,20 @@ func buildScenario(scen string, r *rng.R) (*World, error) {
 		if err := wd.makeLagging(curInst%2, shorter, mid); err != nil {
 			return fail(err)
 		}
+	case "stopped":
+		// the daemon is shutting down: WalletManager.Stop has closed the database, the gRPC server still hands
+		// requests to the handlers (grpc's Stop does not wait for them)
+		if r.Chance(50) {
+			if err := wd.addPending(); err != nil {
+				return fail(err)
+			}
+		}
+		if err := refresh(); err != nil {
+			return fail(err)
+		}
+		wd.w.Stop()
+		wd.stopped = true
+		wd.state = "stopped"
 	case "hints":
 	case "removed":
 		if err := wd.addPending(); err != nil {
@@ -298,7 +312,8 @@ func worker(scen string, inst, part, nreq, only int, path string) int {
 	}
 	p := buildPools(wd)
 	ms := apiMethods(wd.api)
-	held := scen == "importing" || scen == "removing1" || scen == "removing2" || strings.HasPrefix(wd.state, "starting:worker-frozen")
+	stopped := scen == "stopped"
+	held := stopped || scen == "importing" || scen == "removing1" || scen == "removing2" || strings.HasPrefix(wd.state, "starting:worker-frozen")
 	gr := rng.New(seed*15485863 + uint64(inst)*32452843 + uint64(part)*49979687 + uint64(len(scen)))
 	for k := 0; k < nreq; k++ {
 		g := genCase(wd, p, ms, gr)
@@ -306,6 +321,23 @@ func worker(scen string, inst, part, nreq, only int, path string) int {
 			// the request this state is about comes first (the others of the instance are drawn as everywhere)
 			req := &pb.GetBindingHistoryRequest{Type: "all"}
 			g = gcase{method: "GetBindingHistory", req: req, call: call1(ms, "GetBindingHistory", req)}
+		}
+		if stopped && part == 0 && k < 2 && len(wd.ws) > 0 {
+			// the shape of the defect this state exposed: WalletManager.NewAddress fails on the closed database, drops the
+			// cached keystore to reload it, the reload fails too (CreateAddress gets here when Stop closes the database
+			// after its GetAddresses call); then an address is validated
+			A := wd.ws[0]
+			if k == 0 {
+				g = gcase{method: "WM.NewAddress", desc: "[0]", call: func(wd *World) string {
+					if _, err := wd.w.WM.NewAddress(0); err != nil {
+						return "err:go"
+					}
+					return "ok"
+				}}
+			} else {
+				req := &pb.ValidateAddressRequest{Address: A.addrs[0].std}
+				g = gcase{method: "ValidateAddress", req: req, call: call1(ms, "ValidateAddress", req)}
+			}
 		}
 		if scen == "lagging-reorg" && k == 1 {
 			g = gcase{method: "GetBestBlock", req: &empty.Empty{}, call: call1(ms, "GetBestBlock", &empty.Empty{})}
@@ -324,8 +356,10 @@ func worker(scen string, inst, part, nreq, only int, path string) int {
 			// model is read before the call and must still hold when the call runs
 			wd.w.WaitTasks(3 * time.Second)
 		}
-		if ml := guarded(timeout, func() string { return modelLine(wd, fmt.Sprintf("%s/%d/%d/%d", scen, inst, part, k), g) }); ml.class != "" && ml.class[0] == 'R' {
-			emit("%s", ml.class)
+		if !stopped || g.method == "ValidateAddress" { // the model has no closed database: after Stop the requests are explored, not predicted (but for ValidateAddress, which reads the keystore cache only)
+			if ml := guarded(timeout, func() string { return modelLine(wd, fmt.Sprintf("%s/%d/%d/%d", scen, inst, part, k), g) }); ml.class != "" && ml.class[0] == 'R' {
+				emit("%s", ml.class)
+			}
 		}
 		res := guarded(timeout, func() string { return g.call(wd) })
 		emit("C\t%s\t%d\t%d\t%d\t%s\t%s\t%s\t%s\t%s", scen, inst, part, k, wd.state, g.method, res.class, clean(reqs), clean(res.info))
@@ -333,6 +367,9 @@ func worker(scen string, inst, part, nreq, only int, path string) int {
 			// the database may be left inside a write transaction: this process is finished
 			return 3
 		}
+	}
+	if stopped {
+		return 0
 	}
 	curCase = "liveness"
 	v, d := wd.liveness()
